@@ -249,6 +249,15 @@ func main() {
 		{"3 concurrent events: ok1.templ, bad.templ, sub/ok3.templ", []string{"ok1.templ", "bad.templ", "sub/ok3.templ"}},
 		{"the same file twice: ok1.templ, ok1.templ", []string{"ok1.templ", "ok1.templ"}},
 	}
+	if rp := replayArg(); rp != "" {
+		rf := readReplay(rp)
+		for _, sc := range hs {
+			if "handler: "+sc.name == rf.Replay.Scenario {
+				out, trace := vsched.Replay(sc.build(ref), vsched.Options{MaxSteps: 5000}, rf.Replay.Choices)
+				finishReplay("C15", rp, out, trace)
+			}
+		}
+	}
 	for _, sc := range hs {
 		if sc.name == "the same file twice: ok1.templ, ok1.templ" {
 			// the second event of an unchanged file is skipped (modification time not newer): exactly one write
@@ -293,6 +302,13 @@ func main() {
 		if !run.Thorough() && sc.workers > 1 {
 			rb = 1
 		}
+		if rp := replayArg(); rp != "" {
+			if rf := readReplay(rp); rf.Replay.Scenario == sc.name {
+				out, trace := vsched.Replay(sc.build(want, wantErr), vsched.Options{MaxSteps: 20000, TimeHorizon: int64(200 * time.Millisecond)}, rf.Replay.Choices)
+				finishReplay("C15", rp, out, trace)
+			}
+			continue
+		}
 		st := vsched.Explore(vsched.ExploreConfig{Opts: vsched.Options{MaxSteps: 20000, TimeHorizon: int64(200 * time.Millisecond)}, Bound: rb, Deadline: deadline, MaxExecutions: run.Pick(60000, 1500000), StateCaching: true}, sc.build(want, wantErr))
 		record(sc.name, st)
 	}
@@ -302,4 +318,41 @@ func main() {
 		vlib.Fatal("%v", err)
 	}
 	fmt.Printf("C15 schedule exploration: executions=%d scenarios=%d violations=%d\n", res.Executions, len(res.Scenarios), len(res.Violations))
+}
+
+func replayArg() string {
+	for i, a := range os.Args {
+		if a == "--replay" && i+1 < len(os.Args) {
+			return os.Args[i+1]
+		}
+	}
+	return ""
+}
+
+type replayFile struct {
+	Replay struct {
+		Scenario string `json:"scenario"`
+		Choices  []int  `json:"choices"`
+	} `json:"replay"`
+}
+
+func readReplay(path string) replayFile {
+	var rf replayFile
+	b, err := os.ReadFile(path)
+	if err != nil || json.Unmarshal(b, &rf) != nil {
+		vlib.Fatal("cannot read replay file %s", path)
+	}
+	return rf
+}
+
+func finishReplay(id, path, out string, trace []string) {
+	for _, l := range trace {
+		fmt.Println("  " + l)
+	}
+	fmt.Println("outcome:", out)
+	if out != "ok" {
+		fmt.Printf("VIOLATION property=%s replay=%s\n", id, path)
+		os.Exit(1)
+	}
+	os.Exit(0)
 }
